@@ -94,6 +94,9 @@ fn prepare(shape: &Shape, value: &Value, keep_one_tuples: bool, l: &mut Local) -
 }
 
 pub fn replay(case: &Json, l: &mut Local) -> CaseResult {
+    if let Some(r) = super::corpus_checks::replay_corpus(case, l) {
+        return r;
+    }
     // strict: the stored shape is used as is (it is already JSON-faithful; plain 1-tuples kept)
     check(&shape_of(case), &value_of(case), l)
 }
